@@ -519,6 +519,7 @@ var c09c2NearMisses = []string{
 	"call X() as Y", "call X() using (local = true,) as Y", "call X() call Y()", "call X() return ()", "call X() using (local = true,) x",
 	"call X(a = split.b, * = split,)", "call retain(* = retain,) using (disabled = disabled.disabled,)", "call X(split = 1, * = self,)",
 	"call X(* = self,) using (local = true,)", "map call X(a = split self.b, * = self,) using (preflight = true,)",
+	"call\xc2\xa0local\xe3\x80\x80X() using (local\xe2\x80\xa8= true,\xc2\x85)", "call X() using (local = true\xe2\x80\x8b,)", "call X() using\xff (local = true,)", // bytes >= 0x80 between tokens
 }
 
 var c09c2BodyNearMisses = []string{
